@@ -26,7 +26,8 @@ THEOREMS = [
 RULE = ("ordered inheritance DAGs of real InterfaceClass objects and class specifications "
         "(implementer on real classes); streams: pure interface DAGs, DAGs with Interface as an explicit "
         "non-last base, mixed interface/class-spec DAGs, DAGs followed by 1-3 __bases__ reassignments, DAGs in which "
-        "an equal-named twin replaces a base under all its children and is then rebased itself; a case "
+        "an equal-named twin replaces a base under all its children and is then rebased itself; in a third of the cases "
+        "half of the interfaces are falsy (InterfaceClass subclasses with __len__ -> 0 / __bool__ -> False); a case "
         "is non-trivial when some specification has >= 2 bases; distinct = distinct (stream, node count, "
         "sorted base-count profile, inconsistent?, root fix-up needed?, phases) signature")
 TRUSTED_BASE = ["the numbering of specifications by the driver (creation order, closure under __bases__)",
@@ -242,6 +243,12 @@ FIXED = [
                                   {"kind": "iface", "bases": [1]}, {"kind": "iface", "bases": [2, 3]},
                                   {"kind": "iface", "bases": []}],
      "rebase": [[1, [5]], [4, [1, 2]], [4, [3, 2]]]},
+    # falsy specifications taking part in real merges (diamond, and a class spec, then a rebase)
+    {"stream": "fixed", "nodes": [{"kind": "iface", "bases": [0], "falsy": 1}, {"kind": "iface", "bases": [1], "falsy": 2},
+                                  {"kind": "iface", "bases": [1], "falsy": 1}, {"kind": "iface", "bases": [2, 3]},
+                                  {"kind": "class", "cbases": [], "impl": [3, 2]},
+                                  {"kind": "iface", "bases": [], "falsy": 2}],
+     "rebase": [[4, [3, 2]], [2, [6, 1]]]},
     # twin: IChild(IBase), IExtra; IBase' (same name and module) replaces IBase under IChild, then gets IExtra
     {"stream": "fixed", "nodes": [{"kind": "iface", "bases": [0]}, {"kind": "iface", "bases": [1]},
                                   {"kind": "iface", "bases": [0]}, {"kind": "iface", "bases": [], "twin_of": 1}],
@@ -340,6 +347,12 @@ def generate(run, tier):
             else:
                 nodes, ops = gen_rebase(rng, min(n, nmax - 1))
                 cases.append({"stream": stream, "nodes": nodes, "rebase": ops})
+            # falsy specifications (InterfaceClass subclasses with __len__ -> 0 / __bool__ -> False) anywhere in the DAG:
+            # nothing in the resolution order may depend on the truth value of a specification
+            if rng.random() < 0.35:
+                for nd in cases[-1]["nodes"]:
+                    if nd["kind"] == "iface" and rng.random() < 0.5:
+                        nd["falsy"] = rng.choice([1, 2])
     return cases
 
 
@@ -419,11 +432,14 @@ def kind(case, obs):
 def replay_text(case, obs, mode):
     lines = ["# PURE_PYTHON=%s" % ("1" if mode == "py" else "0"),
              "from zope.interface import Interface, implementedBy, implementer, ro",
-             "from zope.interface.interface import InterfaceClass", "S = {0: Interface}; K = {}"]
+             "from zope.interface.interface import InterfaceClass",
+             "class FalsyLen(InterfaceClass):\n    def __len__(self): return 0",
+             "class FalsyBool(InterfaceClass):\n    def __bool__(self): return False",
+             "S = {0: Interface}; K = {}"]
     for i, nd in enumerate(case["nodes"], 1):
         if nd["kind"] == "iface":
-            lines.append("S[%d] = InterfaceClass('I%d', (%s), {})%s" % (
-                i, nd.get("twin_of", i), "".join("S[%d], " % b for b in nd["bases"]),
+            lines.append("S[%d] = %s('I%d', (%s), {})%s" % (
+                i, {0: "InterfaceClass", 1: "FalsyLen", 2: "FalsyBool"}[nd.get("falsy", 0)], nd.get("twin_of", i), "".join("S[%d], " % b for b in nd["bases"]),
                 "   # twin: same __name__ and __module__ as S[%d]" % nd["twin_of"] if "twin_of" in nd else ""))
         else:
             lines.append("K[%d] = type('K%d', (%s) or (object,), {})" % (i, i, "".join("K[%d], " % c for c in nd["cbases"])))
